@@ -286,6 +286,11 @@ func verifAdvance(d time.Duration) {
 	verifClockOn = true
 	verifClockMu.Unlock()
 }
+
+// exported for drivers living in another package
+func VerifSetClock(t time.Time)     { verifSetClock(t) }
+func VerifAdvance(d time.Duration) { verifAdvance(d) }
+func VerifNow() time.Time          { return verifNow() }
 '''
 
 
@@ -304,13 +309,19 @@ def go_test(pkg, inject, *, run="TestVerif", tags="verif", race=False, env=None,
             raise InfraError("missing inject file " + src)
         overlay[os.path.join(pdir, "zz_verif_" + os.path.basename(name))] = src
     if clock:
+        # clock: paths relative to REPO (or to pkg when they contain no '/')
+        bydir = {}
         for f in clock:
-            dst = os.path.join(work, "clk_" + f.replace("/", "_"))
-            clock_rewrite(os.path.join(pdir, f), dst)
-            overlay[os.path.join(pdir, f)] = dst
-        cg = os.path.join(work, "zz_verif_clock.go")
-        open(cg, "w").write(CLOCK_GO % (pkgname or os.path.basename(pkg)))
-        overlay[os.path.join(pdir, "zz_verif_clock.go")] = cg
+            full = f if "/" in f else os.path.join(pkg, f)
+            bydir.setdefault(os.path.dirname(full), []).append(os.path.basename(full))
+        for d, files in bydir.items():
+            for f in files:
+                dst = os.path.join(work, "clk_" + d.replace("/", "_") + "_" + f)
+                clock_rewrite(os.path.join(REPO, d, f), dst)
+                overlay[os.path.join(REPO, d, f)] = dst
+            cg = os.path.join(work, "zz_verif_clock_%s.go" % d.replace("/", "_"))
+            open(cg, "w").write(CLOCK_GO % os.path.basename(d))
+            overlay[os.path.join(REPO, d, "zz_verif_clock.go")] = cg
     for k, v in (extra_overlay or {}).items():
         overlay[k] = v
     ov = os.path.join(work, "overlay.json")
